@@ -708,7 +708,7 @@ class LeastSquare:
 
         numbtype = number_type(allknots)
         numbtype = Fraction if (numbtype is int) else numbtype
-        nptsinteg = olddegree + newdegree + 3  # Number integration points
+        nptsinteg = 2 * max(olddegree, newdegree) + 3  # Number integration points
         if numbtype is Fraction:
             nodes0to1 = NodeSample.closed_linspace(nptsinteg)
             integrator = IntegratorArray.closed_newton_cotes(nptsinteg)
